@@ -47,6 +47,7 @@ structure PoolObs where
   closes : List Nat
   errs : List String      -- component errors the mock components of this pool actually returned
   gcl : Option Bool := none      -- `rg:` pools: the factory's guns are `io.Closer`
+  gwu : Option Bool := none      -- … are `warmup.WarmedUp`
   icl : Option Bool := none      -- … the gun, or the gun it wraps, is an `io.Closer`
   srvopen : Option Nat := none   -- … connections of the run the server still holds open after `Engine.Wait`
   deriving Repr
@@ -94,7 +95,7 @@ def parseObs (n : Nat) (impl : String) : Option Obs := do
     let closes ← (dashList (← lookup kv s!"p{i}.closes")).mapM String.toNat?
     pure { main := dashList (← lookup kv s!"p{i}.main"), aw := dashList (← lookup kv s!"p{i}.aw"),
            guns := ← getN? kv s!"p{i}.guns", closes := closes, errs := dashList (← lookup kv s!"p{i}.errs"),
-           gcl := (lookup kv s!"p{i}.gcl").map (· == "1"), icl := (lookup kv s!"p{i}.icl").map (· == "1"),
+           gcl := (lookup kv s!"p{i}.gcl").map (· == "1"), gwu := (lookup kv s!"p{i}.gwu").map (· == "1"), icl := (lookup kv s!"p{i}.icl").map (· == "1"),
            srvopen := getN? kv s!"p{i}.srvopen" : PoolObs }
   pure { res := res, canc := getS kv "canc" == "1", lat := getS kv "lat" "-", wait := getS kv "wait",
          leak := (getN? kv "leak").getD 0, eng := dashList (getS kv "eng" "-"), engc := getS kv "engc",
@@ -120,6 +121,9 @@ def anyError (pl : Plan) (o : Obs) : Option String :=
 
 /-- is the gun of this pool an `io.Closer`: the plan says so for mock guns, the observation for real ones -/
 def closableOf (p : PoolIn) (po : PoolObs) : Bool := if p.real then po.gcl.getD false else p.closable
+
+/-- … a `warmup.WarmedUp` -/
+def warmOf (p : PoolIn) (po : PoolObs) : Bool := if p.real then po.gwu.getD false else p.warm
 
 def gunCloseBad (pl : Plan) (o : Obs) : Option String :=
   ((List.range pl.pools.length).filterMap fun i =>
@@ -185,9 +189,13 @@ def verdict (pl : Plan) (o : Obs) : String :=
     | some e => s!"fail:wrong-cause:{e}"
     | none =>
     if (o.res == "ctx" || o.res == "wrappedctx") && !o.canc then "fail:spurious-cancel:cancellation error without a cancel"
+    else if o.res == "ok" && !o.canc && o.pools.any (fun po => po.aw.any fun t => t.startsWith "R" && t.endsWith ".ctx") then
+      "fail:spurious-cancel:the run succeeded and nobody cancelled it, yet an instance was stopped by a cancelled context"
     else if o.engc == "1" && o.res != "ctx" then s!"fail:cancel-lost:Engine.Run saw its context done but returned {o.res.take 40}"
     else if o.canc && o.res == "ok" && o.pools.any (fun po => !po.main.contains "ok") then
       "fail:cancel-lost:a cancelled run reported success although a pool had not finished successfully"
+    else if o.res.startsWith "err" && o.eng.any (·.endsWith "!") then
+      s!"fail:cancel-lost:Engine.Run read a pool failure after the caller's cancel was complete, and returned {o.res.take 40}"
     else if pl.cancel == "pre" && o.res.startsWith "err" then
       s!"fail:cancel-lost:the caller had cancelled before Engine.Run was called, and it returned {o.res.take 40}"
     else if o.res == "wrappedctx" then "fail:wrong-cause:cancellation reported as a wrapped component error"
